@@ -1187,6 +1187,43 @@ Qed.
 
 End PSBToken.
 
+(* ---------------- ValidateRTM from the entries on ---------------- *)
+
+Section RTM.
+Variable verify : pubkey -> Z -> Z -> bytes -> bytes -> bool.
+
+Lemma validate_rtm_ok_inv level rtm l1 ln sg k : validate_rtm verify level rtm l1 ln sg k = Ok tt ->
+  psb_key_valid k = true /\
+  exists n e, psb_key_get k = PubRSA n e /\ (bytelen n * 8 = 4096 \/ bytelen n * 8 = 2048) /\
+              verify (PubRSA n e) c16_alg_rsapss (psb_hash_of n)
+                     (rtm ++ (if level =? 2 then l1 else []) ++ ln) (psb_reverse sg) = true.
+Proof. unfold validate_rtm, rtm_signed_data. apply new_signed_blob_ok_inv. Qed.
+
+Lemma validate_rtm_level1 level rtm l1 l1' ln sg k : level <> 2 ->
+  validate_rtm verify level rtm l1 ln sg k = validate_rtm verify level rtm l1' ln sg k.
+Proof.
+  intros H. unfold validate_rtm, rtm_signed_data.
+  destruct (level =? 2) eqn:E; [lia|reflexivity].
+Qed.
+
+Lemma validate_rtm_binding :
+  (forall k sc h m k' sc' h' m' s, verify k sc h m s = true -> verify k' sc' h' m' s = true ->
+                                   k = k' /\ m = m') ->
+  forall level rtm l1 ln level' rtm' l1' ln' sg k k',
+    validate_rtm verify level rtm l1 ln sg k = Ok tt ->
+    validate_rtm verify level' rtm' l1' ln' sg k' = Ok tt ->
+    psb_key_get k = psb_key_get k' /\
+    rtm_signed_data level rtm l1 ln = rtm_signed_data level' rtm' l1' ln'.
+Proof.
+  intros Hid level rtm l1 ln level' rtm' l1' ln' sg k k' H1 H2.
+  apply validate_rtm_ok_inv in H1. apply validate_rtm_ok_inv in H2.
+  destruct H1 as (_ & n & e & G1 & _ & V1). destruct H2 as (_ & n' & e' & G2 & _ & V2).
+  destruct (Hid _ _ _ _ _ _ _ _ _ V1 V2) as [Hk Hm].
+  split; [congruence|]. unfold rtm_signed_data. exact Hm.
+Qed.
+
+End RTM.
+
 (* ------------------------------------------------------------------ *)
 (* re-signing: SetSignature is a function of its arguments only         *)
 (* ------------------------------------------------------------------ *)
